@@ -18,8 +18,9 @@ pub enum FT {
     F64x2,
     I16,
     I32,
+    I24,
 }
-pub const FTS: [FT; 5] = [FT::F64, FT::F32, FT::F64x2, FT::I16, FT::I32];
+pub const FTS: [FT; 6] = [FT::F64, FT::F32, FT::F64x2, FT::I16, FT::I32, FT::I24];
 
 #[derive(Clone, Copy, Debug, PartialEq, Eq, Serialize, Deserialize)]
 pub enum Mode {
@@ -55,6 +56,10 @@ pub struct Case {
     /// transparent mode: ratio 1 is requested as two equal rates through the hz-pair entry points (rate / rate == 1 exactly)
     #[serde(default)]
     pub hz_rate: Option<f64>,
+    /// transparent mode, integer formats: the history uses the whole range (+-1.0 = MIN / MAX) instead of 0.15 full scale;
+    /// at ratio exactly 1 only the centre tap contributes, so nothing can overflow
+    #[serde(default)]
+    pub full_scale: bool,
 }
 fn one() -> f64 {
     1.0
@@ -72,6 +77,10 @@ where
     fn amps(self) -> Vec<f64>;
     /// one LSB in normalised units (0 for floats)
     const LSB: f64;
+    /// like `mk`, but integer formats use their whole range (+-1.0 maps onto MIN / MAX)
+    fn mk_full(v: f64, ch_salt: u64) -> Self {
+        Self::mk(v, ch_salt)
+    }
 }
 impl SF for f64 {
     const INT: bool = false;
@@ -113,6 +122,9 @@ impl SF for i16 {
     fn mk(v: f64, _: u64) -> Self {
         (v * 0.15 * 32768.0) as i16
     }
+    fn mk_full(v: f64, _: u64) -> Self {
+        (v * 32768.0).clamp(-32768.0, 32767.0) as i16
+    }
     fn amps(self) -> Vec<f64> {
         vec![self as f64 / 32768.0]
     }
@@ -124,8 +136,25 @@ impl SF for i32 {
     fn mk(v: f64, _: u64) -> Self {
         (v * 0.15 * 2147483648.0) as i32
     }
+    fn mk_full(v: f64, _: u64) -> Self {
+        (v * 2147483648.0).clamp(-2147483648.0, 2147483647.0) as i32
+    }
     fn amps(self) -> Vec<f64> {
         vec![self as f64 / 2147483648.0]
+    }
+}
+impl SF for dasp_sample::I24 {
+    const INT: bool = true;
+    const EPS: f64 = 1.0 / 8388608.0;
+    const LSB: f64 = 1.0 / 8388608.0;
+    fn mk(v: f64, _: u64) -> Self {
+        dasp_sample::I24::new((v * 0.15 * 8388608.0) as i32).unwrap()
+    }
+    fn mk_full(v: f64, _: u64) -> Self {
+        dasp_sample::I24::new((v * 8388608.0).clamp(-8388608.0, 8388607.0) as i32).expect("I24::new rejected a value inside [MIN, MAX]")
+    }
+    fn amps(self) -> Vec<f64> {
+        vec![self.inner() as f64 / 8388608.0]
     }
 }
 
@@ -156,7 +185,9 @@ where
     let c = &Case { a: c.a.iter().map(|v| v * g).collect(), b: c.b.iter().map(|v| v * g).collect(), ..c.clone() };
     st.class_if(!F::INT && g > 1.0, "float input above 1.0");
     st.class_if(!F::INT && g < 1e-20, "float input below 1e-20");
-    let a: Vec<F> = c.a.iter().enumerate().map(|(i, v)| F::mk(*v, i as u64)).collect();
+    let full = c.full_scale && c.mode == Mode::Transparent;
+    let a: Vec<F> = c.a.iter().enumerate().map(|(i, v)| if full { F::mk_full(*v, i as u64) } else { F::mk(*v, i as u64) }).collect();
+    st.class_if(full && F::INT, "integer history at full scale (ratio 1)");
     let peak = a.iter().flat_map(|f| f.amps()).fold(0.0f64, |m, x| m.max(x.abs()));
     let xs: Vec<f64> = c.xs.iter().copied().filter(|x| *x >= 0.0 && *x < 1.0).collect();
     st.nt(d <= 2 || a.len() < d || xs.iter().any(|x| *x != 0.0) || c.mode == Mode::Reset);
@@ -297,6 +328,7 @@ pub fn check(c: &Case, st: &mut Stats) -> CheckResult {
         FT::F64x2 => run_typed::<[f64; 2]>(c, st),
         FT::I16 => run_typed::<i16>(c, st),
         FT::I32 => run_typed::<i32>(c, st),
+        FT::I24 => run_typed::<dasp_sample::I24>(c, st),
     }
 }
 
@@ -311,7 +343,7 @@ fn x_strategy() -> impl Strategy<Value = f64> {
 }
 
 pub fn case_strategy(max_depth: usize) -> impl Strategy<Value = Case> {
-    (0usize..5, prop_oneof![2 => 1usize..=4, 2 => 1usize..=max_depth], 0usize..5).prop_flat_map(move |(f, depth, m)| {
+    (0usize..6, prop_oneof![2 => 1usize..=4, 2 => 1usize..=max_depth], 0usize..5).prop_flat_map(move |(f, depth, m)| {
         let mode = [Mode::Transparent, Mode::Linearity, Mode::Constant, Mode::Reset, Mode::RandomRatio][m];
         let val = prop_oneof![4 => (-1.0f64..1.0), 1 => (-16i32..=16).prop_map(|k| k as f64 / 16.0)];
         (
@@ -328,8 +360,14 @@ pub fn case_strategy(max_depth: usize) -> impl Strategy<Value = Case> {
                 1 => (1u32..200_000).prop_map(|r| Some(r as f64)),
                 1 => (1e-3f64..1e6).prop_map(Some),
             ],
+            prop_oneof![2 => Just(0usize), 1 => 0usize..=(2 * depth + 1)],
         )
-            .prop_map(move |(mut a, mut b, scale_pow, xs, ratio, array_storage, gain, hz_rate)| {
+            .prop_map(move |(mut a, mut b, scale_pow, xs, ratio, array_storage, gain, hz_rate, ztail)| {
+                // history A may end in a run of exactly silent frames (shorter than, equal to or longer than the depth)
+                let la = a.len();
+                for v in a.iter_mut().skip(la.saturating_sub(ztail)) {
+                    *v = 0.0;
+                }
                 // keep sums and scaled copies inside [-1, 1]
                 if mode == Mode::Linearity {
                     for v in a.iter_mut().chain(b.iter_mut()) {
@@ -341,7 +379,7 @@ pub fn case_strategy(max_depth: usize) -> impl Strategy<Value = Case> {
                         }
                     }
                 }
-                Case { ft: FTS[f], depth, array_storage, mode, a, b, scale_pow, xs, ratio, gain, hz_rate }
+                Case { ft: FTS[f], depth, array_storage, mode, a, b, scale_pow, xs, ratio, gain, hz_rate, full_scale: ztail % 2 == 1 }
             })
     })
 }
@@ -349,11 +387,11 @@ pub fn case_strategy(max_depth: usize) -> impl Strategy<Value = Case> {
 pub fn run(ctx: &mut Ctx) {
     ctx.set_rule(
         "cases are (frame format out of f64, f32, [f64;2], i16, i32; depth 1..=16 (thorough 64); zero-initialised ring storage; history of 0..6 x depth frames (priming included); fractions x from {0, k/1024, random, 0.5, 1-2^-53}; \
-         float inputs scaled by a gain from 1e-30 to 1e6; one of five checks: converter at ratio exactly 1 (scale 1.0, or two equal rates through from_hz_to_hz / set_hz_to_hz), linearity (superposition and power-of-two scaling), constant input on a primed buffer with depth >= 4, reset, converter at a random ratio); integer inputs limited to 0.15 full scale; \
+         float inputs scaled by a gain from 1e-30 to 1e6; one of five checks: converter at ratio exactly 1 (scale 1.0, or two equal rates through from_hz_to_hz / set_hz_to_hz), linearity (superposition and power-of-two scaling), constant input on a primed buffer with depth >= 4, reset, converter at a random ratio); integer inputs limited to 0.15 full scale except at ratio exactly 1, where they also use the whole range incl. MIN / MAX; \
          non-trivial: depth <= 2, history shorter than depth, x != 0, or reset",
     );
     ctx.assume("transparent: |out_n - source[n-depth]| <= 1e-12 peak (for integer formats that is less than one LSB, i.e. exact); linearity within (12 depth + 12) eps sum|inputs| for floats, (6 depth + 3) LSB plus input truncation for integer formats; constant input within 1 % (+ (2 depth + 1) LSB of per-term truncation for integer formats); reset compared bit for bit with a fresh interpolator");
-    for c in ["depth <= 2", "history shorter than depth (priming)", "ratio exactly 1", "linearity", "constant input, primed, depth >= 4", "reset", "converter at a random ratio", "integer format", "float input above 1.0", "float input below 1e-20", "ratio 1 as two equal rates"] {
+    for c in ["depth <= 2", "history shorter than depth (priming)", "ratio exactly 1", "linearity", "constant input, primed, depth >= 4", "reset", "converter at a random ratio", "integer format", "float input above 1.0", "float input below 1e-20", "ratio 1 as two equal rates", "integer history at full scale (ratio 1)"] {
         ctx.require_class(c);
     }
     let max_depth = ctx.pick(16usize, 64);
@@ -365,13 +403,13 @@ pub fn run(ctx: &mut Ctx) {
         for depth in 1..=max_depth {
             for l in [0, 1, depth.saturating_sub(1), depth, depth + 1, 2 * depth, 3 * depth + 1] {
                 let a: Vec<f64> = (0..l).map(|i| (((i * 7919) % 201) as f64 - 100.0) / 101.0).collect();
-                cases.push(Case { ft, depth, array_storage: true, mode: Mode::Transparent, a, b: vec![], scale_pow: 0, xs: vec![0.0], ratio: 1.0, gain: if l % 2 == 0 { 1.0 } else { 5.0 }, hz_rate: [None, Some(44000.0), Some(49.0), Some(44100.0)][(depth + l) % 4] });
+                cases.push(Case { ft, depth, array_storage: true, mode: Mode::Transparent, a, b: vec![], scale_pow: 0, xs: vec![0.0], ratio: 1.0, gain: if l % 2 == 0 { 1.0 } else { 5.0 }, hz_rate: [None, Some(44000.0), Some(49.0), Some(44100.0)][(depth + l) % 4], full_scale: l % 3 == 0 });
             }
             if depth >= 4 {
                 let xs: Vec<f64> = (0..64).map(|k| k as f64 / 64.0).collect();
-                cases.push(Case { ft, depth, array_storage: false, mode: Mode::Constant, a: vec![0.8], b: vec![0.0; depth], scale_pow: 0, xs: xs.clone(), ratio: 1.0, gain: 3.0, hz_rate: None });
-                cases.push(Case { ft, depth, array_storage: false, mode: Mode::Constant, a: vec![0.6], b: vec![], scale_pow: 0, xs: xs.clone(), ratio: 1.0, gain: 1e-22, hz_rate: None });
-                cases.push(Case { ft, depth, array_storage: false, mode: Mode::Constant, a: vec![-0.3], b: vec![], scale_pow: 0, xs, ratio: 1.0, gain: 1.0, hz_rate: None });
+                cases.push(Case { ft, depth, array_storage: false, mode: Mode::Constant, a: vec![0.8], b: vec![0.0; depth], scale_pow: 0, xs: xs.clone(), ratio: 1.0, gain: 3.0, hz_rate: None, full_scale: false });
+                cases.push(Case { ft, depth, array_storage: false, mode: Mode::Constant, a: vec![0.6], b: vec![], scale_pow: 0, xs: xs.clone(), ratio: 1.0, gain: 1e-22, hz_rate: None, full_scale: false });
+                cases.push(Case { ft, depth, array_storage: false, mode: Mode::Constant, a: vec![-0.3], b: vec![], scale_pow: 0, xs, ratio: 1.0, gain: 1.0, hz_rate: None, full_scale: false });
             }
         }
     }
